@@ -99,8 +99,11 @@ def judge_layer_c(prop, crows):
         if v["status"] == "undecided":
             undecided.append("layer C %s: %s" % (d["name"], (v.get("raw_tail") or "")[-300:].replace("\n", " ")))
             continue
-        mine = [f for f in v["failed_checks"] if prop in tags_of(f["check"])]
-        other = [f for f in v["failed_checks"] if prop not in tags_of(f["check"])]
+        # a failed assertion counts for this property if the property is in the assertion's tag list, or if the definition was written
+        # for this property (name prefix): in a definition designed around `$`, a wrong token IS a C05 matter, etc.
+        primary = d["name"].startswith(prop.lower() + "_")
+        mine = [f for f in v["failed_checks"] if primary or prop in tags_of(f["check"])]
+        other = [f for f in v["failed_checks"] if not (primary or prop in tags_of(f["check"]))]
         for f in other:
             notes.append("NOTE %s: failed check outside this property: %s" % (d["name"], f["check"][:160]))
         if not mine:
